@@ -183,6 +183,35 @@ func matrix(r *ev.Run) {
 						}
 						return err != nil, "returned nil"
 					}
+					// what a locked shim answers does not depend on what it holds: a request to sign with (or to remove) a
+					// certificate it holds, one it has never seen, an upstream certificate and a plain key are all told the same
+					{
+						unseen := mk(k2, gen.YSSHCAKeyID(gen.KeyIDSpec{HW: true, Touch: 3, TransID: "eeeeeeeeee", Prins: []string{"u"}}))
+						targets := []struct {
+							name string
+							key  ssh.PublicKey
+						}{{"held hardware certificate", hw1}, {"hardware certificate never added", unseen}, {"upstream YSSHCA certificate", ycert}, {"upstream plain certificate", ucert}, {"held plain key", k2.Pub}, {"key never seen", pool[9].Pub}}
+						var firstSign, firstRemove string
+						for ti, t := range targets {
+							_, serr := s.Sign(t.key, []byte("probe"))
+							rerr := s.Remove(t.key)
+							if hung {
+								return
+							}
+							if serr == nil || rerr == nil {
+								r.Violation(c, "locked-operation-not-refused:probe", fmt.Sprintf("%s: sign err=%v remove err=%v", t.name, serr, rerr), rec)
+								return
+							}
+							if ti == 0 {
+								firstSign, firstRemove = serr.Error(), rerr.Error()
+								continue
+							}
+							if serr.Error() != firstSign || rerr.Error() != firstRemove {
+								r.Violation(c, "locked-refusal-depends-on-what-is-held", fmt.Sprintf("while locked: sign/remove naming the %s are answered %q / %q, naming the %s %q / %q", targets[0].name, firstSign, firstRemove, t.name, serr, rerr), rec)
+								return
+							}
+						}
+					}
 					for _, o := range []string{op, second} {
 						if hung {
 							return
